@@ -26,10 +26,12 @@ fn factory_for(id: &str) -> Option<(&'static str, Factory)> {
         "C05" => ("C05", |t| Box::new(props::c05::C05::new(t)) as Box<dyn Property>),
         "C07" => ("C07", |t| Box::new(props::c07::C07::new(t)) as Box<dyn Property>),
         "C08" => ("C08", |t| Box::new(props::c08::C08::new(t)) as Box<dyn Property>),
+        "C18" => ("C18", |t| Box::new(props::c18::C18::new(t)) as Box<dyn Property>),
         "C16" => ("C16", |t| Box::new(props::c16::C16::new(t)) as Box<dyn Property>),
         "C15" => ("C15", |t| Box::new(props::c15::C15::new(t)) as Box<dyn Property>),
         "C13" => ("C13", |t| Box::new(props::c13::C13::new(t)) as Box<dyn Property>),
         "C14" => ("C14", |t| Box::new(props::c14::C14::new(t)) as Box<dyn Property>),
+        "C09" => ("C09", |t| Box::new(props::c09::C09::new(t)) as Box<dyn Property>),
         "C10" => ("C10", |t| Box::new(props::c10::C10::new(t)) as Box<dyn Property>),
         "C11" => ("C11", |t| Box::new(props::c11::C11::new(t)) as Box<dyn Property>),
         _ => return None,
